@@ -1097,6 +1097,24 @@ class Encoder:
             if ins.res is not None:
                 env[ins.res] = dst
             return m, False
+        if c in ("bcmp", "memcmp"):
+            # byte-wise comparison of n bytes: 0 iff equal; memcmp's sign is that of the first differing pair (as unsigned bytes)
+            pa, pb, n = args[0][1], args[1][1], args[2][1]
+            if n.size() != 64:
+                n = z3.ZeroExt(64 - n.size(), n)
+            if not (isinstance(pa, Ptr) and isinstance(pb, Ptr)):
+                raise EncError("%s through pointers without provenance at %s" % (c, where))
+            self.safety.append(("bounds:%s:%s-a" % (where, c), "bounds", z3.And(r, n != 0, z3.Not(self.in_bounds(pa, n, False)))))
+            self.safety.append(("bounds:%s:%s-b" % (where, c), "bounds", z3.And(r, n != 0, z3.Not(self.in_bounds(pb, n, False)))))
+            LIM = 128
+            self.safety.append(("unwind:%s:%s-longer-than-%d" % (where, c, LIM), "unwind", z3.And(r, z3.UGT(n, bv(LIM, 64)))))
+            res = bv(0, 32)
+            for i in reversed(range(LIM)):
+                m, xa = self.load(m, Ptr(pa.region, pa.off + bv(i, 64), [(cc, rg, o + bv(i, 64)) for (cc, rg, o) in pa.alts] if pa.alts else None), 1)
+                m, xb = self.load(m, Ptr(pb.region, pb.off + bv(i, 64), [(cc, rg, o + bv(i, 64)) for (cc, rg, o) in pb.alts] if pb.alts else None), 1)
+                res = z3.If(z3.And(z3.UGT(n, bv(i, 64)), xa != xb), z3.If(z3.ULT(xa, xb), bv(-1, 32), bv(1, 32)), res)
+            env[ins.res] = res
+            return m, False
         if c.startswith("llvm.memset."):
             dst, val, n = args[0][1], args[1][1], args[2][1]
             if n.size() != 64:
